@@ -24,6 +24,7 @@ type connPool struct {
 	active      int
 	mu          sync.Mutex
 	idleTimeout time.Duration
+	closed      bool // set by Shutdown; a Put that raced with it must not park a connection here
 }
 
 // pooledConn wraps a connection with metadata
@@ -102,6 +103,13 @@ func (p *WebSocketPool) Put(backend string, conn net.Conn) bool {
 
 	if pool.active > 0 {
 		pool.active--
+	}
+
+	// The pool was shut down after this Put looked it up: nobody would ever
+	// close a connection parked here
+	if pool.closed {
+		_ = conn.Close()
+		return false
 	}
 
 	// Don't exceed max idle connections
@@ -235,6 +243,7 @@ func (p *WebSocketPool) Shutdown() {
 			_ = pc.conn.Close() // Best effort close, ignore error
 		}
 		pool.idle = nil
+		pool.closed = true
 		pool.mu.Unlock()
 
 		logging.L().Info().
